@@ -120,7 +120,7 @@ def run_tlc(module, cfg_path, scratch: Scratch, *, workers=None, dump=False, env
     tag = tag or module
     meta = scratch.sub(f"meta-{tag}-{int(time.time()*1000)%100000}")
     workers = workers or int(os.environ.get("VERIF_WORKERS", "0") or 0) or os.cpu_count() or 4
-    cmd = ["java", "-XX:+UseParallelGC", f"-Xmx{heap}", "-Xss64m", "-cp", f"{JAR}:{DEPS}", "tlc2.TLC",
+    cmd = ["java", "-XX:+UseParallelGC", f"-Xmx{heap}", "-Xss64m", f"-Djava.io.tmpdir={meta}", "-cp", f"{JAR}:{DEPS}", "tlc2.TLC",
            "-config", cfg_path, "-workers", str(workers), "-metadir", meta, "-noGenerateSpecTE"]
     if coverage and not simulate:
         cmd += ["-coverage", "1"]
